@@ -36,6 +36,7 @@ struct _OrcParser {
   OrcOpcodeSet *opcode_set;
   OrcProgram *program;
   OrcProgram *error_program;
+  OrcProgram *refused_program;
 
   OrcVector programs;
   OrcVector errors;
@@ -199,6 +200,18 @@ orc_parse_code (const char *code, OrcProgram ***programs, int *n_programs,
       orc_parse_handle_directive (parser, line);
     } else {
       orc_parse_handle_opcode (parser, line);
+    }
+
+    /* The construction API refuses what a program cannot hold (a 17th
+     * temporary, a 9th constant, a 101st instruction ...) by recording an
+     * error in the program only.  Turn the first such refusal per program
+     * into an error record, with the number of the line that caused it. */
+    if (parser->program && parser->program != parser->refused_program) {
+      const char *msg = orc_program_get_error (parser->program);
+      if (msg && msg[0]) {
+        orc_parse_add_error (parser, "%s", msg);
+        parser->refused_program = parser->program;
+      }
     }
   }
   orc_parse_free_line (parser);
@@ -855,7 +868,8 @@ orc_parse_handle_opcode (OrcParser *parser, const OrcLine *line)
       snprintf (varname, sizeof (varname), "_%d.%s", opcode_arg_size(o, j), line->tokens[i]);
       id = orc_program_add_constant_str (parser->program, opcode_arg_size(o, j),
           line->tokens[i], varname);
-      if (id < 0) {
+      if (id < ORC_VAR_C1) {
+        /* not a number after all (-1), or no room for another constant (0) */
         orc_parse_add_error (parser, "bad constant \"%s\" for %s",
             line->tokens[i], line->tokens[offset]);
         return 0;
